@@ -495,7 +495,10 @@ class Signals:
         if h is _signal.SIG_DFL:
             if signum in (_signal.SIGWINCH, _signal.SIGCHLD, _signal.SIGURG):
                 return
-            raise HarnessError("default action of signal %d would kill the process" % signum)
+            # the default action would end the process: there is nothing left to observe; the signal is dropped
+            w.log.add("would_terminate_process", signum)
+            w.probe("signal_with_default_action_dropped")
+            return
         self.in_handler += 1
         try:
             h(signum, None)
